@@ -1007,6 +1007,9 @@ fn parse_elisp_escape<'de, R: Read<'de>>(
                 decode_elisp_octal_escape(read, ch)
             });
         }
+        // A continuation byte cannot follow the (ASCII) backslash in valid
+        // UTF-8; pushing it could complete an ill-formed sequence before it.
+        0x80..=0xBF => return error(read, ErrorCode::InvalidUnicodeCodePoint),
         _ => scratch.push(ch),
     }
     Ok(ElispEscape::Indeterminate)
